@@ -193,7 +193,11 @@ func (l *lin) term() *Term {
 
 func IAdd(a, b *Term) *Term { l := linOf(a); l.add(b, 1); return l.term() }
 func ISub(a, b *Term) *Term { l := linOf(a); l.add(b, -1); return l.term() }
-func INeg(a *Term) *Term    { l := &lin{coef: map[string]int64{}, terms: map[string]*Term{}}; l.add(a, -1); return l.term() }
+func INeg(a *Term) *Term {
+	l := &lin{coef: map[string]int64{}, terms: map[string]*Term{}}
+	l.add(a, -1)
+	return l.term()
+}
 
 func And(ts ...*Term) *Term {
 	var out []*Term
@@ -286,9 +290,9 @@ func Ite(c, a, b *Term) *Term {
 	return App("ite", c, a, b)
 }
 
-func Sel(arr, i *Term) *Term       { return App("select", arr, i) }
-func Sto(arr, i, v *Term) *Term    { return App("store", arr, i, v) }
-func Sel2(arr, i, j *Term) *Term   { return Sel(Sel(arr, i), j) }
+func Sel(arr, i *Term) *Term        { return App("select", arr, i) }
+func Sto(arr, i, v *Term) *Term     { return App("store", arr, i, v) }
+func Sel2(arr, i, j *Term) *Term    { return Sel(Sel(arr, i), j) }
 func Sto2(arr, i, j, v *Term) *Term { return Sto(arr, i, Sto(Sel(arr, i), j, v)) }
 
 func ArrSort(idx, el string) string { return "(Array " + idx + " " + el + ")" }
